@@ -837,29 +837,29 @@ fn matrix_cells(rng: &mut Rng, shard: usize, nshards: usize, budget: usize) -> V
         // JMP / labels in every block relation the checker accepts, and faults raised while a callee's locals are initialised
         let mut flow_cells: Vec<(&str, String)> = Vec::new();
         let prog = |body: &str| format!("PROGRAM Main\nVAR\n  i : INT;\n  n : INT;\n  c : BOOL := TRUE;\nEND_VAR\n{body}\nEND_PROGRAM\n");
-        flow_cells.push(("jmp|same-block-forward", prog("JMP done;\nn := 1;\ndone: n := n + 2;")));
-        flow_cells.push(("jmp|endless-same-block", prog("again: i := (i + 1) MOD 100;\nJMP again;")));
-        flow_cells.push(("jmp|endless-out-of-if", prog("again: i := (i + 1) MOD 100;\nIF c THEN\n  JMP again;\nEND_IF;")));
-        flow_cells.push(("jmp|out-of-if", prog("IF c THEN\n  JMP done;\nEND_IF;\nn := 1;\ndone: n := n + 2;")));
-        flow_cells.push(("jmp|out-of-nested-if", prog("IF c THEN\n  IF n < 100 THEN\n    JMP done;\n  END_IF;\nEND_IF;\nn := 1;\ndone: n := n + 2;")));
-        flow_cells.push(("jmp|out-of-case", prog("CASE i OF\n  0: JMP done;\nELSE\n  n := 5;\nEND_CASE;\nn := 1;\ndone: n := n + 2;")));
-        flow_cells.push(("jmp|out-of-for", prog("FOR i := 0 TO 3 DO\n  IF i = 2 THEN\n    JMP done;\n  END_IF;\nEND_FOR;\nn := 1;\ndone: n := n + 2;")));
-        flow_cells.push(("jmp|out-of-while", prog("WHILE i < 3 DO\n  i := i + 1;\n  JMP done;\nEND_WHILE;\nn := 1;\ndone: n := n + 2;")));
-        flow_cells.push(("jmp|backward-out-of-if", prog("again: i := i + 1;\nIF i < 5 THEN\n  JMP again;\nEND_IF;\ni := 0;")));
-        flow_cells.push(("jmp|into-if", prog("JMP inner;\nIF c THEN\n  n := 1;\n  inner: n := n + 2;\nEND_IF;")));
-        flow_cells.push(("jmp|into-for", prog("JMP inner;\nFOR i := 0 TO 3 DO\n  n := 1;\n  inner: n := n + 2;\nEND_FOR;")));
-        flow_cells.push(("jmp|sibling-branch", prog("IF c THEN\n  JMP other;\nELSE\n  other: n := n + 2;\nEND_IF;")));
-        flow_cells.push(("jmp|in-function", "FUNCTION F : INT\nVAR_INPUT\n  a : INT;\nEND_VAR\nIF a > 0 THEN\n  JMP done;\nEND_IF;\nF := 1;\ndone: F := F + 2;\nEND_FUNCTION\nPROGRAM Main\nVAR\n  n : INT;\nEND_VAR\nn := F(1) + F(0);\nEND_PROGRAM\n".to_string()));
-        flow_cells.push(("jmp|in-fb", "FUNCTION_BLOCK B\nVAR_INPUT\n  a : INT;\nEND_VAR\nVAR_OUTPUT\n  q : INT;\nEND_VAR\nIF a > 0 THEN\n  JMP done;\nEND_IF;\nq := 1;\ndone: q := q + 2;\nEND_FUNCTION_BLOCK\nPROGRAM Main\nVAR\n  b : B;\n  n : INT;\nEND_VAR\nb(a := 1);\nb(a := 0);\nn := b.q;\nEND_PROGRAM\n".to_string()));
+        flow_cells.push(("jmp|same-block-forward", prog("JMP done;\nn := INT#1;\ndone: n := n + INT#2;")));
+        flow_cells.push(("jmp|endless-same-block", prog("again: i := (i + INT#1) MOD INT#100;\nJMP again;")));
+        flow_cells.push(("jmp|endless-out-of-if", prog("again: i := (i + INT#1) MOD INT#100;\nIF c THEN\n  JMP again;\nEND_IF;")));
+        flow_cells.push(("jmp|out-of-if", prog("IF c THEN\n  JMP done;\nEND_IF;\nn := INT#1;\ndone: n := n + INT#2;")));
+        flow_cells.push(("jmp|out-of-nested-if", prog("IF c THEN\n  IF n < INT#100 THEN\n    JMP done;\n  END_IF;\nEND_IF;\nn := INT#1;\ndone: n := n + INT#2;")));
+        flow_cells.push(("jmp|out-of-case", prog("CASE i OF\n  INT#0: JMP done;\nELSE\n  n := INT#5;\nEND_CASE;\nn := INT#1;\ndone: n := n + INT#2;")));
+        flow_cells.push(("jmp|out-of-for", prog("FOR i := INT#0 TO INT#3 DO\n  IF i = INT#2 THEN\n    JMP done;\n  END_IF;\nEND_FOR;\nn := INT#1;\ndone: n := n + INT#2;")));
+        flow_cells.push(("jmp|out-of-while", prog("WHILE i < INT#3 DO\n  i := i + INT#1;\n  JMP done;\nEND_WHILE;\nn := INT#1;\ndone: n := n + INT#2;")));
+        flow_cells.push(("jmp|backward-out-of-if", prog("again: i := i + INT#1;\nIF i < INT#5 THEN\n  JMP again;\nEND_IF;\ni := INT#0;")));
+        flow_cells.push(("jmp|into-if", prog("JMP inner;\nIF c THEN\n  n := INT#1;\n  inner: n := n + INT#2;\nEND_IF;")));
+        flow_cells.push(("jmp|into-for", prog("JMP inner;\nFOR i := INT#0 TO INT#3 DO\n  n := INT#1;\n  inner: n := n + INT#2;\nEND_FOR;")));
+        flow_cells.push(("jmp|sibling-branch", prog("IF c THEN\n  JMP other;\nELSE\n  other: n := n + INT#2;\nEND_IF;")));
+        flow_cells.push(("jmp|in-function", "FUNCTION F : INT\nVAR_INPUT\n  a : INT;\nEND_VAR\nIF a > INT#0 THEN\n  JMP done;\nEND_IF;\nF := INT#1;\ndone: F := F + INT#2;\nEND_FUNCTION\nPROGRAM Main\nVAR\n  n : INT;\nEND_VAR\nn := F(INT#1) + F(INT#0);\nEND_PROGRAM\n".to_string()));
+        flow_cells.push(("jmp|in-fb", "FUNCTION_BLOCK B\nVAR_INPUT\n  a : INT;\nEND_VAR\nVAR_OUTPUT\n  q : INT;\nEND_VAR\nIF a > INT#0 THEN\n  JMP done;\nEND_IF;\nq := INT#1;\ndone: q := q + INT#2;\nEND_FUNCTION_BLOCK\nPROGRAM Main\nVAR\n  b : B;\n  n : INT;\nEND_VAR\nb(a := INT#1);\nb(a := INT#0);\nn := b.q;\nEND_PROGRAM\n".to_string()));
         for (kind, decl, call) in [
-            ("function", "FUNCTION F : INT\nVAR_INPUT\n  a : INT;\n  b : INT;\nEND_VAR\nVAR_TEMP\n  t : INT := a / b;\nEND_VAR\nF := t;\nEND_FUNCTION", "n := F(7, z);"),
-            ("function-var", "FUNCTION F : INT\nVAR_INPUT\n  a : INT;\n  b : INT;\nEND_VAR\nVAR\n  t : INT := a / b;\nEND_VAR\nF := t;\nEND_FUNCTION", "n := F(7, z);"),
-            ("fb", "FUNCTION_BLOCK B\nVAR_INPUT\n  a : INT;\n  b : INT;\nEND_VAR\nVAR_TEMP\n  t : INT := a / b;\nEND_VAR\nVAR_OUTPUT\n  q : INT;\nEND_VAR\nq := t;\nEND_FUNCTION_BLOCK", "fb(a := 7, b := z);\nn := fb.q;"),
-            ("method", "FUNCTION_BLOCK B\nMETHOD M : INT\nVAR_INPUT\n  a : INT;\n  b : INT;\nEND_VAR\nVAR_TEMP\n  t : INT := a / b;\nEND_VAR\nM := t;\nEND_METHOD\nEND_FUNCTION_BLOCK", "n := fb.M(7, z);"),
-            ("overflowing-initialiser", "FUNCTION F : INT\nVAR_INPUT\n  a : INT;\n  b : INT;\nEND_VAR\nVAR_TEMP\n  t : INT := a * b;\nEND_VAR\nF := t;\nEND_FUNCTION", "n := F(32767, z + 2);"),
+            ("function", "FUNCTION F : INT\nVAR_INPUT\n  a : INT;\n  b : INT;\nEND_VAR\nVAR_TEMP\n  t : INT := a / b;\nEND_VAR\nF := t;\nEND_FUNCTION", "n := F(INT#7, z);"),
+            ("function-var", "FUNCTION F : INT\nVAR_INPUT\n  a : INT;\n  b : INT;\nEND_VAR\nVAR\n  t : INT := a / b;\nEND_VAR\nF := t;\nEND_FUNCTION", "n := F(INT#7, z);"),
+            ("fb", "FUNCTION_BLOCK B\nVAR_INPUT\n  a : INT;\n  b : INT;\nEND_VAR\nVAR_TEMP\n  t : INT := a / b;\nEND_VAR\nVAR_OUTPUT\n  q : INT;\nEND_VAR\nq := t;\nEND_FUNCTION_BLOCK", "fb(a := INT#7, b := z);\nn := fb.q;"),
+            ("method", "FUNCTION_BLOCK B\nMETHOD M : INT\nVAR_INPUT\n  a : INT;\n  b : INT;\nEND_VAR\nVAR_TEMP\n  t : INT := a / b;\nEND_VAR\nM := t;\nEND_METHOD\nEND_FUNCTION_BLOCK", "n := fb.M(INT#7, z);"),
+            ("overflowing-initialiser", "FUNCTION F : INT\nVAR_INPUT\n  a : INT;\n  b : INT;\nEND_VAR\nVAR_TEMP\n  t : INT := a * b;\nEND_VAR\nF := t;\nEND_FUNCTION", "n := F(INT#32767, z + INT#2);"),
         ] {
             let fbdecl = if decl.contains("FUNCTION_BLOCK") { "  fb : B;\n" } else { "" };
-            let text = format!("{decl}\nPROGRAM Main\nVAR\n{fbdecl}  n : INT;\n  z : INT;\n  k : INT;\nEND_VAR\nk := k + 1;\n{call}\nEND_PROGRAM\n");
+            let text = format!("{decl}\nPROGRAM Main\nVAR\n{fbdecl}  n : INT;\n  z : INT;\n  k : INT;\nEND_VAR\nk := k + INT#1;\n{call}\nEND_PROGRAM\n");
             flow_cells.push((Box::leak(format!("local-initialiser-fault|{kind}").into_boxed_str()), text));
         }
         for (label, text) in flow_cells {
